@@ -62,6 +62,12 @@ func InitSeataContext(ctx context.Context) context.Context {
 	return context.WithValue(ctx, seataContextVariable, &ContextVariable{})
 }
 
+// cloneSeataContext returns a context carrying a copy of the seata variable of ctx
+func cloneSeataContext(ctx context.Context) context.Context {
+	variable := *(ctx.Value(seataContextVariable).(*ContextVariable))
+	return context.WithValue(ctx, seataContextVariable, &variable)
+}
+
 func GetTxStatus(ctx context.Context) *message.GlobalStatus {
 	variable := ctx.Value(seataContextVariable)
 	if variable == nil {
